@@ -188,7 +188,8 @@ theorem ttx_acquired_iff_handler (beh : Behav) (fuel : Nat) (s : State) (hr : Re
 example : (run (fun _ _ _ _ => []) 10 init [.ttx 0x100, .call { kind := .reg, fn := 1, user := 7, mask := 2 }, .ttx 0x101,
     .call { kind := .reg, fn := 1, user := 7, mask := 0 }, .ttx 0x102]).toOption.map (·.cached) = some [0x101] := by decide
 
-/-- The event mutex: as long as no *top-level* registration fails for lack of memory - or if the
+/-- OUTSIDE THE PROPERTY (C11 does not quantify over allocation failure; kept because the models follow
+the code on that path too).  The event mutex: as long as no *top-level* registration fails for lack of memory - or if the
 allocation-failure path releases the mutex (`oomUnlocks`, read off vbi.c by the translator; true
 once fixes/ev-oom-unlock.diff is applied) - the mutex is free between operations and no event
 ever blocks. -/
@@ -203,7 +204,8 @@ example : NoTopOom demoOps := by
   simp only [demoOps, List.mem_cons, Op.call.injEq, List.not_mem_nil, or_false] at hc
   rcases hc with rfl | rfl | rfl <;> rfl
 
-/-- GENUINE DEFECT (C11-F1, replay corpus/C11/oom-lock-leak.ops): on the code as it is
+/-- OUTSIDE THE PROPERTY - observation C11-F1 (NOTES/C11.md; input corpus/C11/oom-lock-leak.ops), not
+judged by the check: on the code as it is
 (`oomUnlocks = false`) the statement without the hypothesis is false. When `calloc` fails,
 `vbi_event_handler_register` returns FALSE without unlocking (vbi.c:312-313, same in `_add`
 221-222): the mutex stays locked and the next event blocks forever. -/
@@ -286,7 +288,7 @@ theorem evl_delivery_at_most_once_in_order (rv : Bool) (beh : Evl.Behav) (fuel :
   (evl_inv_reachable rv beh fuel s hr).1.ordered d
 
 /-- delivery 0 (event 2) calls records 0 and 2 - record 1 was removed by record 0's callback and
-its re-registration is lost (C11-F2) - and never the removed record -/
+its re-registration is lost (F50, original code) - and never the removed record -/
 example : (Evl.run false demoBehL 40 Evl.init (demoCallsL ++ [.send 2])).toOption.map
     (fun s => (Evl.callsOf 0 s.trace, Evl.callsOf 1 s.trace)) = some ([0, 2], []) := by decide
 /-- with the repair (`rv = true`) record 1 is called, and its callback's nested delivery 1 (event 4)
@@ -294,29 +296,28 @@ calls record 2 -/
 example : (Evl.run true demoBehL 40 Evl.init (demoCallsL ++ [.send 2])).toOption.map
     (fun s => (Evl.callsOf 0 s.trace, Evl.callsOf 1 s.trace)) = some ([0, 1, 2], [2]) := by decide +kernel
 
-/-- `delivery_exactly_once` for event.c, the at-least-once half: a top-level delivery of `ev` invokes
-every registered handler that wants `ev` - with its own callback and user pointer and the event
-type raised - provided no API call executed during the delivery (by any callback, at any nesting
-depth) disturbs it (`Evl.disturbs`: removes it, gives it a mask without `ev`, or is a
-remove_by_event).  PARTIAL with respect to the full statement `evl_delivery_complete_full` below,
-which only excludes disturbances *before the handler's turn*. -/
-theorem evl_delivery_complete_untouched_partial (rv : Bool) (beh : Evl.Behav) (fuel ev : Nat) (s s' : Evl.State)
+/-- `delivery_exactly_once` for event.c, the at-least-once half, full strength: a top-level delivery of
+`ev` invokes every registered handler that wants `ev` - with its own callback and user pointer and
+the event type raised - unless an API call executed *before its turn* (`Evl.beforeTurn`: before the
+first invocation, by this delivery, of a record with the same or a larger id; calls made by any
+callback at any nesting depth count) disturbs it (`Evl.disturbs`: removes it, gives it a mask
+without `ev`, or is a remove_by_event). -/
+theorem evl_delivery_complete_full (rv : Bool) (beh : Evl.Behav) (fuel ev : Nat) (s s' : Evl.State)
+    (hr : Evl.Reach rv beh fuel s) (hs : Evl.exec rv beh fuel s (.send ev) = .ok s')
+    (r : Evl.Rec) (hrm : r ∈ s.list) (hmask : r.mask &&& ev ≠ 0)
+    (hq : Evl.Quiet ev r (Evl.beforeTurn s.nextDid r.id (Evl.newPart s s'))) :
+    Evl.Entry.call s.nextDid r.id r.fn r.user ev ∈ Evl.newPart s s' := by
+  obtain ⟨h, hrc⟩ := evl_inv_reachable rv beh fuel s hr
+  exact Evl.send_complete_full rv beh fuel ev s s' h hrc hs r hrm hmask hq
+
+/-- corollary: a handler that no API call disturbs during the whole delivery is invoked -/
+theorem evl_delivery_complete_untouched (rv : Bool) (beh : Evl.Behav) (fuel ev : Nat) (s s' : Evl.State)
     (hr : Evl.Reach rv beh fuel s) (hs : Evl.exec rv beh fuel s (.send ev) = .ok s')
     (r : Evl.Rec) (hrm : r ∈ s.list) (hmask : r.mask &&& ev ≠ 0)
     (hq : Evl.Quiet ev r (Evl.newPart s s')) :
     Evl.Entry.call s.nextDid r.id r.fn r.user ev ∈ Evl.newPart s s' := by
   obtain ⟨h, hrc⟩ := evl_inv_reachable rv beh fuel s hr
   exact Evl.send_complete rv beh fuel ev s s' h hrc hs r hrm hmask hq
-
-/-- OPEN (not proved): the full-strength at-least-once statement for event.c - only API calls
-executed before the handler's turn (`Evl.beforeTurn`: before the first invocation, by this delivery,
-of a record with the same or a larger id) may excuse a missing invocation. -/
-def evl_delivery_complete_full : Prop :=
-  ∀ (rv : Bool) (beh : Evl.Behav) (fuel ev : Nat) (s s' : Evl.State),
-    Evl.Reach rv beh fuel s → Evl.exec rv beh fuel s (.send ev) = .ok s' →
-    ∀ r ∈ s.list, r.mask &&& ev ≠ 0 →
-      Evl.Quiet ev r (Evl.beforeTurn s.nextDid r.id (Evl.newPart s s')) →
-      Evl.Entry.call s.nextDid r.id r.fn r.user ev ∈ Evl.newPart s s'
 
 /-- record 2 is touched by nobody during the demo delivery and is called -/
 example : (Evl.run false demoBehL 40 Evl.init (demoCallsL ++ [.send 2])).toOption.map
@@ -365,11 +366,11 @@ theorem evl_mask_union_counterexample (rv : Bool) :
   obtain ⟨s, hs, hp⟩ := Evl.okAnd_spec h
   exact ⟨s, hs, of_decide_eq_true hp⟩
 
-/-- GENUINE DEFECT (C11-F2, replay corpus/C11/evl-readd-lost.ops): in the original code (`rv = false`)
-a handler that a callback removes and registers again during a delivery is lost: `_add` finds the
-record already marked `remove`, updates its mask, returns it as success - and the sweep at the end
-of the delivery frees it.  After the delivery handler (1,2) is not registered although the last
-call made for it was a successful `_add`. -/
+/-- F50 (was C11-F2; fixed in /repo by commit ff327ee, replay corpus/C11/evl-readd-lost.ops): with the
+original `_add` (`rv = false` only) a handler that a callback removes and registers again during a
+delivery is lost: `_add` finds the record already marked `remove`, updates its mask, returns it as
+success - and the sweep at the end of the delivery frees it.  After the delivery handler (1,2) is
+not registered although the last call made for it was a successful `_add`. -/
 theorem readd_in_delivery_lost_counterexample :
     ∃ s, Evl.run false demoBehL 40 Evl.init (demoCallsL ++ [.send 2]) = .ok s ∧
       (Evl.Entry.api (.add 1 2 2 false)) ∈ s.trace ∧ ∀ r ∈ s.list, ¬ (r.fn = 1 ∧ r.user = 2) := by
@@ -379,7 +380,27 @@ theorem readd_in_delivery_lost_counterexample :
   obtain ⟨s, hs, hp⟩ := Evl.okAnd_spec h
   exact ⟨s, hs, of_decide_eq_true hp⟩
 
-/-- with the proposed repair (fixes/event-readd-clears-remove.diff, `rv = true`) it is kept -/
+/-- `evl_readd_in_delivery_kept` - the positive statement for the code as it is now (`readdRevives`,
+read off event.c by the translator, is `true`; the proof's `rfl` fails, and the check reports it,
+should the repair ever be lost): in any state - idle or in the middle of a (nested) delivery, the
+handler unknown, registered, or already marked for removal - removing a handler and registering it
+again leaves it linked, *not* marked for removal, with the new mask. -/
+theorem evl_readd_in_delivery_kept (s : Evl.State) (fn user m : Nat) (hm : m ≠ 0) :
+    ∃ r ∈ (Evl.apiAdd readdRevives fn user m false (Evl.apiAdd readdRevives fn user 0 false s)).list,
+      r.fn = fn ∧ r.user = user ∧ r.mask = m ∧ r.remove = false := by
+  have hflag : readdRevives = true := rfl
+  rw [hflag]
+  exact Evl.apiAdd_registers fn user m hm _
+
+/-- ... and it stays registered: whatever is executed afterwards (further calls of the callbacks,
+nested deliveries, the end of the delivery with its sweep of marked records), a linked unmarked
+handler that wants `ev` remains one as long as no executed API call disturbs it. -/
+theorem evl_kept_while_undisturbed (rv : Bool) (beh : Evl.Behav) (fuel ev : Nat) (r : Evl.Rec)
+    (s s' : Evl.State) (c : Evl.Call) (h : Evl.Inv rv s) (hk : Evl.Kept ev r s)
+    (hs : Evl.exec rv beh fuel s c = .ok s') (hq : Evl.Quiet ev r (Evl.newPart s s')) : Evl.Kept ev r s' :=
+  (Evl.kexec_kloop rv beh ev r fuel).1 s c s' h hk hs hq
+
+/-- the demo history on the current model: handler (1,2) is still registered after the delivery -/
 example : (Evl.run true demoBehL 40 Evl.init (demoCallsL ++ [.send 2])).toOption.map
     (fun s => s.list.filter (fun r => r.fn = 1 ∧ r.user = 2)) = some [⟨1, 1, 2, 2, false⟩] := by decide +kernel
 
